@@ -20,6 +20,7 @@ LEVEL_TEXT += (" (E5.mut) `let` scoped variables are immutable, `var` mutable, i
 LEVEL_TEXT += (' (E5.key) no map or set keyed by String/&str (a cache keyed by the Display form of a scope merges distinct syntax nodes).')
 
 
+LEVEL_TEXT += (" (E5) Graph.syntax_nodes, from which the ancestor walk starts, is written only by add_syntax_node's entry().or_insert; the forcing window may open inside the callee that marks the cell.")
 def _good_key(a):
     return (a[0] == "place" and a[2] and a[2][-1][0] == "field" and a[2][-1][3] == "index" and a[2][-1][1] == "tsg::graph::SyntaxNodeRef") or \
            (a[0] == "call" and re.search(r"tree_sitter::Node::<'tree>::id$", a[1] or "") is not None)
@@ -293,6 +294,20 @@ def forcing_window(prog, rep):
                     opens.add(b)
                 elif re.match(r"^(\w+::)*ScopedValues::Forced\b", v):
                     closes.add(b)
+        openers = set()
+        if not opens:
+            # the forcing function marks the cell itself: `let map = self.force(name, cell, exec)?` — the window opens inside
+            # that call and is still open when it returns
+            for (caller, tg), sites in cg.sites.items():
+                g = prog.fns.get(tg) if caller == f.id else None
+                if g is None or g.body is None:
+                    continue
+                gtr = Tracer(g.body)
+                if any(is_callee(t2, r"cell::Cell::<T>::replace$") and re.match(r"^(\w+::)*ScopedValues::Forcing\b", canon(gtr.operand(t2["args"][1])))
+                       for _b2, t2 in g.body.calls()):
+                    openers.add(tg)
+                    opens |= {b for b, _t in sites}
+                    n += len(sites)
         if not opens or not closes:
             rep.violation("C04.F", "anchor-lost:%s forcing window" % f.id, f.loc(), "replace(Forcing)/replace(Forced) pair not found")
             continue
@@ -307,7 +322,7 @@ def forcing_window(prog, rep):
             for b, t in sites:
                 if b in window and b not in closes and b not in opens:
                     n += 1
-                    if tg.endswith("LazyScopedVariables::force"):
+                    if tg.endswith("LazyScopedVariables::force") or tg in openers:
                         continue
                     if target[0] == tg or target[0] in cg.reachable_from([tg]):
                         bad.append("%s at %s" % (tg.rsplit("::", 2)[-2] + "::" + tg.rsplit("::", 1)[-1], sp_str(t["sp"])))
@@ -320,6 +335,11 @@ def run(prog, rep):
     n, ncasts = key_rule(prog, rep)
     rep.floor("C04.K", n, 6, "keyed accesses of syntax-node maps")
     rep.floor("C04.K", ncasts, 3, "Node::id() narrowing sites")
+    # the inherit walk starts from the tree-sitter node recorded for the scope's id: that table only ever gains entries
+    from ..engines import e5_writers as e5w
+    rep.rule("E5", "Graph.syntax_nodes (id → tree-sitter node, where the ancestor walk starts) is written only by add_syntax_node's entry().or_insert")
+    nw = e5w.check_writers(prog, rep, "E5", "tsg::graph::Graph", "syntax_nodes", {("add_syntax_node", "entry")}, "syntax nodes are insert-only")
+    rep.floor("E5", nw, 1, "writers of Graph.syntax_nodes")
     rep.rule("C04.W", "own entry first; ancestor walk gated by `inherit`, parent-stepping, by-name lookup, first hit wins; strict = lazy")
     fs = {}
     s = [f for f in prog.find(self_ty="tsg::ast::ScopedVariable", name="get") if "strict" in f.id]
@@ -388,7 +408,7 @@ def run(prog, rep):
                 if st["k"] == "assign" and st["rv"]["k"] == "aggregate" and st["rv"].get("variant") == "DuplicateVariable":
                     for g in dominating_guards(body, tr, b):
                         cc = canon(g.cond)
-                        structural = (g.variant in ("Some", "None", "Unforced", "Continue", "Ok") and re.search(r"HashMap::insert\(|Iterator::next\(|arg:values|Try::branch\(", cc) is not None) or \
+                        structural = g.variant == "Unforced" or (g.variant in ("Some", "None", "Unforced", "Continue", "Ok") and re.search(r"HashMap::insert\(|Iterator::next\(|arg:values|Try::branch\(", cc) is not None) or \
                             re.match(r"^Option::(is_none|is_some)\(&HashMap::insert\(", cc) is not None     # `if values.insert(..).is_none() { continue }`
                         if not structural:
                             extra.append("%s = %s" % (cc[:100], g.value if g.value is not None else g.variant))
